@@ -877,6 +877,13 @@ func runC04(a vh.Args, o *vh.Oracle, r *vh.Result) error {
 		if err := readJSON(a.Replay, &c); err != nil {
 			return err
 		}
+		if c.Kind == "fault" {
+			var f c04Fault
+			if err := readJSON(a.Replay, &f); err != nil {
+				return err
+			}
+			return c04RunFault(a, o, r, &f, true)
+		}
 		if c.Kind == "history" {
 			var h c04History
 			if err := readJSON(a.Replay, &h); err != nil {
@@ -972,6 +979,9 @@ func runC04(a vh.Args, o *vh.Oracle, r *vh.Result) error {
 		return err
 	}
 	if err := c04Histories(a, o, r, rng); err != nil {
+		return err
+	}
+	if err := c04Faults(a, o, r, rng); err != nil {
 		return err
 	}
 	return c04CLI(a, o, r, rng)
